@@ -32,7 +32,7 @@ static int vdec(const void* p, std::size_t len) {
 static std::string valjson(link_or_value* lv) { value* vp = lv->get_value(); if (!vp) return "[\"N\"]"; return "[\"V\"," + std::to_string(vdec(value::get_body(vp), value::get_len(vp))) + "]"; }
 static std::string kb(unsigned char a) { return std::string(1, (char)a); }
 // ---- scenario families: initial content + key universe for the operations
-struct Scn { std::vector<std::string> init; std::vector<std::string> uni; std::string name; };
+struct Scn { std::vector<std::string> init; std::vector<std::string> uni; std::string name; std::vector<std::string> prune; };
 static Scn make_scenario(const std::string& fam) {
     Scn s; s.name = fam;
     auto add_uni = [&](std::vector<std::string> c, std::size_t n) { std::shuffle(c.begin(), c.end(), rng); for (std::size_t i = 0; i < c.size() && s.uni.size() < n; i++) if (std::find(s.uni.begin(), s.uni.end(), c[i]) == s.uni.end()) s.uni.push_back(c[i]); };
@@ -49,6 +49,16 @@ static Scn make_scenario(const std::string& fam) {
         for (int i = 0; i < 16; i++) s.init.push_back(kb(10 + 10 * i));   // split at the 16th
         // afterwards the right border is thinned out by the programs; universe = keys of the right node and neighbours
         std::vector<std::string> c; for (int i = 8; i < 16; i++) c.push_back(kb(10 + 10 * i)); c.push_back(kb(85)); c.push_back(kb(165)); add_uni(c, 6);
+    } else if (fam == "pair") {       // interior root over two borders with 1-2 keys each: removes empty both, the root collapses
+        for (int i = 0; i < 16; i++) s.init.push_back(kb(10 + 10 * i));   // split at the 16th: L = 10..80, R = 90..160
+        int a = rng() % 8, b = 8 + rng() % 8, a2 = rng() % 3 ? -1 : (int)(rng() % 8), b2 = rng() % 3 ? -1 : 8 + (int)(rng() % 8);
+        for (int i = 0; i < 16; i++) if (i != a && i != b && i != a2 && i != b2) s.prune.push_back(kb(10 + 10 * i));
+        for (int i : {a, b, a2, b2}) if (i >= 0 && std::find(s.uni.begin(), s.uni.end(), kb(10 + 10 * i)) == s.uni.end()) s.uni.push_back(kb(10 + 10 * i));
+        if (rng() % 2) s.uni.push_back(kb(5 + 10 * (rng() % 16)));
+    } else if (fam == "links") {      // layer-0 border that holds only links: 2-3 prefixes with 1-3 keys below each; short keys are absent
+        std::vector<std::string> pf = {std::string(8, 'p'), std::string(8, 'q'), std::string(8, 'r')}; int np = 2 + rng() % 2;
+        for (int i = 0; i < np; i++) { int n = 1 + rng() % 3; for (int j = 0; j < n; j++) s.init.push_back(pf[i] + kb(10 + 10 * j)); }
+        std::vector<std::string> c = {"a", "pz", "q", "qz", "s", pf[0] + kb(15), pf[1] + kb(5), std::string(8, 'p').substr(0, 7) + "q"}; add_uni(c, 5);
     } else if (fam == "layer") {      // keys sharing an 8-byte prefix: next-layer root created / grown / removed
         std::string p(8, 'p'); int n = rng() % 4; s.init.push_back("a"); s.init.push_back("z");
         for (int i = 0; i < n; i++) s.init.push_back(p + kb(10 + 10 * i));
@@ -106,10 +116,12 @@ int main(int argc, char** argv) {
                 if (o.kind == "scan" && rng() % 6 == 0) { o.rtl = true; o.re = scan_endpoint::INF; o.r = ""; o.max = 1; }
                 if (o.kind == "iscan") { o.rtl = rng() % 2; o.max = 0; o.ea = false; o.limit = (rng() % 3 == 0) ? (long)(rng() % 3) : -1; }
             } else if (fam == "ddl") { long y = rng() % 100; o.kind = y < 45 ? "create" : y < 85 ? "delete" : "find"; o.k = k; }
+            else if (fam == "links") { long y = rng() % 100; o.kind = y < 15 ? "get" : y < 75 ? "put" : y < 85 ? "uput" : "rem"; o.k = k; o.uniq = o.kind == "uput"; }
+            else if (fam == "pair") { long y = rng() % 100; o.kind = y < 15 ? "get" : y < 35 ? "put" : "rem"; o.k = k; }
             else { long y = rng() % 100; o.kind = y < 30 ? "get" : y < 55 ? "put" : y < 70 ? "uput" : "rem"; o.k = k; o.uniq = o.kind == "uput"; }
             o.t = (int)t + 1; prog[t].push_back(o); } }
         // directed templates (every other scenario of the non-DDL families): patterns that random programs rarely produce
-        if (fam != "ddl" && nth >= 2 && (sc % 2 == 1 || directed) && !scn.init.empty()) {
+        if (fam != "ddl" && fam != "pair" && nth >= 2 && (sc % 2 == 1 || directed) && !scn.init.empty()) {
             auto rd = [&](std::size_t n) { return (std::size_t)(rng() % n); };
             std::vector<std::string> sorted_init = scn.init; std::sort(sorted_init.begin(), sorted_init.end());
             std::string x = scn.uni[rd(scn.uni.size())]; if (std::find(scn.init.begin(), scn.init.end(), x) == scn.init.end()) x = sorted_init[rd(sorted_init.size())];
@@ -155,6 +167,7 @@ int main(int argc, char** argv) {
             Token setup{}; enter(setup); std::vector<std::pair<std::string, int>> initv;
             if (ddl) for (auto& k : scn.init) { create_storage(k); initv.push_back({k, 1}); }
             else for (auto& k : scn.init) { int id = ++vctr; int buf[8]; venc(id, buf); put<char>(setup, &ti, k, (char*)buf, false, vlen(id)); initv.push_back({k, id}); }
+            for (auto& k : scn.prune) { remove(setup, &ti, k); initv.erase(std::remove_if(initv.begin(), initv.end(), [&](const std::pair<std::string, int>& e) { return e.first == k; }), initv.end()); }
             std::vector<Token> tok(nth); for (auto& t : tok) enter(t);
             std::vector<std::vector<Op>> ops = prog; for (auto& v : ops) for (auto& o : v) if (o.kind == "put" || o.kind == "uput") o.v = ++vctr;
             g_seq = 0;
